@@ -18,6 +18,16 @@ ROOT = os.environ.get('PRYSM_ROOT', '/repo')
 
 
 def one(job):
+    import time
+    t0 = time.time()
+    r = _one(job)
+    dt = time.time() - t0
+    if dt > 45:
+        print('SLOW %s %s %.0fs' % (job[0], job[1], dt), file=sys.stderr)
+    return r
+
+
+def _one(job):
     name, prop = job
     from sa.cli import run_property
     from sa.core import report
